@@ -205,6 +205,11 @@ func genDistKeyGenerator(ctx context.Context, logger log.Logger, secrc chan kybe
 						defer logger.TimeTrack(time.Now(), "genDistKeyGenerator", map[string]interface{}{"GroupID": sessionID, "Topic": "Grouping"})
 						pubPoints := make([]kyber.Point, numOfPubkeys)
 						for _, pubkey := range pubs {
+							if pubkey == nil || pubkey.Publickey == nil || pubkey.Index >= uint32(len(pubPoints)) {
+								err := &DKGError{err: errors.Errorf("genDistKeyGenerator failed for GID %s : %w", sessionID, errors.New("public key message without key or with index out of range"))}
+								reportErr(ctx, errc, err)
+								return
+							}
 							if pubPoints[pubkey.Index] != nil {
 								err := &DKGError{err: errors.Errorf("genDistKeyGenerator failed for GID %s : %w", sessionID, ErrDupPubKeyIndex)}
 								reportErr(ctx, errc, err)
